@@ -51,7 +51,9 @@ struct Case {
     /// the trait sits in a SECOND stacked `#[derive_ex(..)]` list
     stacked: bool,
     /// 0 plain; 1 the definition comes out of a `macro_rules!` macro, the field type being passed in as an `ident`
-    /// fragment; 2 declared where-clause `where Option<Self>: Keep` (Keep is implemented for Option<X> only)
+    /// fragment; 2 declared where-clause `where Option<Self>: Keep` (Keep is implemented for Option<X> only);
+    /// 3 an additional last field of type `Tag<Self>`; 4 (generic flavour) a lifetime parameter named `'a` and an
+    /// additional last field `Tag<&'a T>`
     extra: usize,
 }
 
@@ -73,8 +75,8 @@ fn gen(ch: &mut Ch, thorough: bool) -> Option<Case> {
     let entry = *ch.of(&Entry::BOTH);
     let raw = ch.flag();
     let stacked = ch.flag();
-    let extra = ch.pick(3);
-    if extra != 0 && (raw || stacked || flavour != Flavour::Fm || body.n == 0 || entry == Entry::Derive && !thorough) {
+    let extra = ch.pick(5);
+    if extra != 0 && (raw || stacked || flavour != (if extra == 4 { Flavour::GenericFm } else { Flavour::Fm }) || body.n == 0 || entry == Entry::Derive && !thorough) {
         return None;
     }
     if !thorough && extra != 0 && !(body.n == 2) {
@@ -153,7 +155,23 @@ fn build_inner(c: &Case, tier: &str) -> XCase {
     };
     let ty = |_: usize, _: usize| fty.to_string();
     let noattrs = |_: usize, _: usize| Vec::new();
-    let mut item = sh.item(match c.flavour { Flavour::GenericFm => "<T>", Flavour::AssocFm => "<T: HasA>", _ => "" }, &ty, &noattrs);
+    let mut item = sh.item(match c.flavour { Flavour::GenericFm if c.extra == 4 => "<'a, T>", Flavour::GenericFm => "<T>", Flavour::AssocFm => "<T: HasA>", _ => "" }, &ty, &noattrs);
+    // an additional last field that takes part in every operator without logging (Tag implements all forms)
+    let tag_ty = match c.extra { 3 => Some("::dxrt::probe::Tag<Self>"), 4 => Some("::dxrt::probe::Tag<&'a T>"), _ => None };
+    if let (Some(t), Body::Struct(f)) = (tag_ty, &mut item.body) {
+        match f {
+            FieldsDef::Tuple(v) => v.push(FieldDef::tuple(t)),
+            FieldsDef::Named(v) => v.push(FieldDef::named("tag", t)),
+            FieldsDef::Unit => {}
+        }
+    }
+    let with_tag = |ctor: String| -> String {
+        if tag_ty.is_none() {
+            return ctor;
+        }
+        let tag = "::dxrt::probe::Tag(::core::marker::PhantomData)";
+        if let Some(p) = ctor.strip_suffix(" }") { format!("{p}, tag: {tag} }}") } else if let Some(p) = ctor.strip_suffix(')') { format!("{p}, {tag})") } else { ctor }
+    };
     if c.extra == 2 {
         item.where_ = "where Option<Self>: Keep".into();
     }
@@ -163,7 +181,7 @@ fn build_inner(c: &Case, tier: &str) -> XCase {
         Entry::Attr => lists,
         Entry::Derive => format!("#[derive(Ex)]\n{lists}"),
     };
-    let selfty = if matches!(c.flavour, Flavour::GenericFm | Flavour::AssocFm) { "X<Fm>" } else { "X" };
+    let selfty = if c.extra == 4 { "X<'static, Fm>" } else if matches!(c.flavour, Flavour::GenericFm | Flavour::AssocFm) { "X<Fm>" } else { "X" };
     let is_int = c.flavour == Flavour::WrapI8;
     let mut s = String::new();
     s.push_str("use derive_ex::{derive_ex, Ex};\nuse dxrt::{Fm, take_log, take_log_str};\n");
@@ -183,7 +201,7 @@ fn build_inner(c: &Case, tier: &str) -> XCase {
     s.push_str("fn mk(k: usize) -> S {\n    match k {\n");
     for k in 0..3 {
         let args: Vec<String> = (0..n).map(|fi| if is_int { format!("::core::num::Wrapping({}i8)", int_val(k, fi)) } else { format!("Fm::new({:?})", fm_val(k, fi)) }).collect();
-        s.push_str(&format!("        {k} => {},\n", sh.ctor(0, &args)));
+        s.push_str(&format!("        {k} => {},\n", with_tag(sh.ctor(0, &args))));
     }
     s.push_str("        _ => unreachable!(),\n    }\n}\n");
     let parts: Vec<String> = (0..n).map(|fi| if is_int { format!("x.{}.0.to_string()", sh.member(0, fi)) } else { format!("x.{}.0.clone()", sh.member(0, fi)) }).collect();
@@ -262,9 +280,9 @@ fn build_inner(c: &Case, tier: &str) -> XCase {
     atoms.insert(format!("body={}", sh.describe()));
     atoms.insert(format!("raw={}", c.raw));
     atoms.insert(format!("stacked={}", c.stacked));
-    atoms.insert(format!("extra={}", ["none", "macro_rules-generated", "where-nested-Self"][c.extra]));
+    atoms.insert(format!("extra={}", ["none", "macro_rules-generated", "where-nested-Self", "last-field-Tag<Self>", "lifetime-'a-and-Tag<&'a T>"][c.extra]));
     XCase {
-        text: format!("{} {}{}{} {}", c.entry.name(), if c.stacked { "stacked " } else { "" }, ["", "macro_rules-generated ", ""][c.extra], tr, item.print()),
+        text: format!("{} {}{}{} {}", c.entry.name(), if c.stacked { "stacked " } else { "" }, ["", "macro_rules-generated ", "", "", ""][c.extra], tr, item.print()),
         code: s,
         expected: exp,
         atoms,
@@ -279,7 +297,7 @@ fn build_inner(c: &Case, tier: &str) -> XCase {
 
 pub fn run(ctx: &Ctx, rep: &mut Report) {
     let thorough = ctx.tier.is_thorough();
-    rep.rule = "terminal state = (one of the 22 operator traits, struct body shape, field flavour in {Fm free monoid, generic T := Fm, Wrapping<i8>, projection type T::A of X<T: HasA>}, plain / generated by a macro_rules! macro with the field type as an ident fragment / declared where-clause with a nested `Self`, raw names, stacked lists, entry point); inner enumeration = all 9 ordered operand pairs of a 3-value domain x every owned/reference form of the trait; distinct by program text; non-trivial = at least one field".into();
+    rep.rule = "terminal state = (one of the 22 operator traits, struct body shape, field flavour in {Fm free monoid, generic T := Fm, Wrapping<i8>, projection type T::A of X<T: HasA>}, plain / generated by a macro_rules! macro with the field type as an ident fragment / declared where-clause with a nested `Self` / additional field of type Tag<Self> / lifetime parameter 'a with a field Tag<&'a T>, raw names, stacked lists, entry point); inner enumeration = all 9 ordered operand pairs of a 3-value domain x every owned/reference form of the trait; distinct by program text; non-trivial = at least one field".into();
     rep.assumptions = vec!["reference: field i of the result is op(lhs_i, rhs_i) with the left operand on the left; every reference form equals the owned form; borrowed operands unchanged; Fm logs exactly one call per field with the expected (lhs_is_ref, rhs_is_ref)".into()];
     let mut cases = Vec::new();
     if let Some(p) = &ctx.replay {
